@@ -3,7 +3,7 @@
 //! Semantics from R7RS, with Steel's documented names; errors are `Err(ErrObj(kind))`.
 
 use crate::interp::{err, Interp};
-use crate::num::{self, Expect, Num, Op};
+use crate::num::{self, Num, Op};
 use crate::vals::*;
 use num_traits::{Signed, ToPrimitive, Zero};
 use std::cell::RefCell;
@@ -23,7 +23,7 @@ pub const PRIM_NAMES: &[&str] = &[
     "number->string", "string->number", "string-upcase", "string-downcase", "string-ref", "string", "make-string", "string->list", "list->string",
     "char->integer", "integer->char", "char=?", "char<?", "char?", "char-upcase", "char-downcase",
     "equal?", "eqv?", "eq?", "not", "boolean?", "procedure?",
-    "display", "write", "newline", "displayln",
+    "display", "write", "newline", "displayln", "#%gc-collect",
 ];
 
 type R<'a> = Result<Val<'a>, Val<'a>>;
@@ -55,36 +55,27 @@ fn as_index<'a>(v: &Val<'a>) -> Result<usize, Val<'a>> {
     }
 }
 
+/// numbers beyond this size put a program outside the modelled domain (cost, not semantics)
+const MAX_BITS: u64 = 50_000;
+
 fn num_op<'a>(op: Op, args: &[Val<'a>]) -> R<'a> {
     let nums: Vec<Num> = args.iter().map(as_num).collect::<Result<_, _>>()?;
     // integer-only operators reject non-integers with a type error
-    match num::eval(op, &nums, 10) {
+    match num::eval_out(op, &nums, 10) {
         None => Err(tm()),
-        Some(Expect::Err) => Err(err("Generic")),
-        Some(Expect::Any(v)) | Some(Expect::ErrOrAny(v)) => {
-            // the first accepted rendering is the model's value; programs keep to operand
+        Some(num::Out::Err) => Err(err("Generic")),
+        Some(num::Out::Bool(b)) => Ok(Val::Bool(b)),
+        Some(num::Out::Text(_)) => Err(tm()),
+        Some(num::Out::Nums(v)) => {
+            // the first accepted value is the model's value; programs keep to operand
             // classes where the set is a singleton
-            Ok(parse_canon_num(&v[0]))
+            if let Num::Ex(r) = &v[0] {
+                if r.numer().bits() > MAX_BITS || r.denom().bits() > MAX_BITS {
+                    return Err(err("OutOfFuel"));
+                }
+            }
+            Ok(Val::Num(v[0].clone()))
         }
-    }
-}
-
-fn parse_canon_num<'a>(s: &str) -> Val<'a> {
-    if s == "#t" {
-        return Val::Bool(true);
-    }
-    if s == "#f" {
-        return Val::Bool(false);
-    }
-    let (tag, rest) = s.split_at(2);
-    match tag {
-        "i:" | "B:" => Val::Num(num::big(rest.parse().unwrap())),
-        "r:" | "R:" => {
-            let (n, d) = rest.split_once('/').unwrap();
-            Val::Num(Num::Ex(num_rational::BigRational::new(n.parse().unwrap(), d.parse().unwrap())))
-        }
-        "f:" => Val::Num(Num::Fl(if rest == "nan" { f64::NAN } else { rest.parse().unwrap() })),
-        _ => panic!("bad canonical number {}", s),
     }
 }
 
@@ -671,6 +662,11 @@ pub fn call<'a>(it: &mut Interp<'a>, name: &'static str, args: Vec<Val<'a>>) -> 
                 print_out(it, x, false);
             }
             it.stdout.push('\n');
+            Ok(Val::Void)
+        }
+        // a collection request has no semantic effect
+        "#%gc-collect" => {
+            arity(a, 0)?;
             Ok(Val::Void)
         }
         "newline" => {
